@@ -89,6 +89,36 @@ Proof.
     + split; [eexists; reflexivity|]. intros w' H. inversion H; subst. exact H1.
 Qed.
 
+(* every iteration that goes on has popped at least one order: the loop cannot go on longer than there are orders *)
+Lemma going_on_consumes w w1 : inv w -> loop_body_gen w = Ok (true, w1) ->
+  (length (w_bq w1) + length (w_sq w1) < length (w_bq w) + length (w_sq w))%nat.
+Proof.
+  intros [Hb [Hs [Hz [Fb [Fs Hn]]]]]. destruct w as [b s bt st bq sq pb ps p pend]. cbn [w_b w_s w_bt w_st w_bq w_sq w_pb w_ps w_p w_pend] in *.
+  unfold loop_body_gen. cbn [w_b w_s w_bt w_st w_bq w_sq w_pb w_ps w_p w_pend].
+  destruct s as [s|]; destruct (bt =? 0) eqn:Eb; destruct (st =? 0) eqn:Es; cbn [andb negb];
+    repeat (match goal with
+            | |- context [match ?l with [] => _ | _ :: _ => _ end] => is_var l; destruct l
+            | |- context [if ?c then _ else _] => destruct c eqn:?
+            end; cbv beta iota);
+    intros H; try discriminate H; inversion H; subst; clear H; cbn [w_bq w_sq length]; try lia.
+  all: try (specialize (Hn eq_refl)); exfalso; zb; lia.
+Qed.
+
+Lemma iter_more fuel : forall w w' k, iter fuel w = Ok (Some w') -> iter (fuel + k) w = Ok (Some w').
+Proof.
+  induction fuel as [|f IH]; intros w w' k H; [discriminate|]. cbn [iter Nat.add] in *.
+  destruct (loop_body_gen w) as [[[|] w1]|e]; [apply IH; exact H|exact H|discriminate].
+Qed.
+
+(* ... so it stops: within one iteration more than there are orders left in the two queues *)
+Lemma iter_stops n : forall w, inv w -> (length (w_bq w) + length (w_sq w) <= n)%nat -> exists w', iter (S n) w = Ok (Some w').
+Proof.
+  induction n as [|n IH]; intros w Hi Hl; cbn [iter]; pose proof (one_iteration 0 w Hi) as H1; unfold step_rel in H1;
+    destruct (loop_body_gen w) as [[[|] w1]|e] eqn:E; try contradiction; try (eexists; reflexivity).
+  - pose proof (going_on_consumes w w1 Hi E). lia.
+  - destruct H1 as [Hi1 _]. pose proof (going_on_consumes w w1 Hi E). apply IH; [exact Hi1|lia].
+Qed.
+
 Lemma init_ok bq sq w0 : Forall pos bq -> Forall pos sq -> walk_init_gen bq sq = Ok w0 ->
   inv w0 /\ (forall fuel, mwalk fuel w0 = walk Q qltb fuel None None bq sq None []) /\ w_pb w0 ++ w_bq w0 = bq /\ w_ps w0 ++ w_sq w0 = sq.
 Proof.
@@ -113,6 +143,30 @@ Proof.
   destruct (iter_is_walk fuel _ Hi) as [Hx Hw]. split; [exact Hx|]. intros w' H. rewrite <- Hm. apply Hw. exact H.
 Qed.
 Print Assumptions gen_loop_is_the_models_walk.
+
+(* ... and it always stops: with the model's fuel for these books the loop has ended, and its result is the model's walk *)
+Theorem gen_loop_stops_with_the_models_result : forall bq sq, Forall pos bq -> Forall pos sq -> bq <> [] ->
+  exists w0 w', walk_init_gen bq sq = Ok w0 /\ iter (S (S (length bq + length sq))) w0 = Ok (Some w') /\
+                walk Q qltb (S (S (length bq + length sq))) None None bq sq None [] = (w_p w', w_pend w') /\
+                w_pb w' ++ w_bq w' = bq /\ w_ps w' ++ w_sq w' = sq.
+Proof.
+  intros bq sq Fb Fs Hne. destruct bq as [|b0 r]; [contradiction|].
+  destruct (init_ok (b0 :: r) sq _ Fb Fs eq_refl) as [Hi [Hm [Eb Es]]].
+  match type of Hi with inv ?x => remember x as w0 eqn:Ew0 end.
+  assert (Hl : (length (w_bq w0) + length (w_sq w0) <= length r + length sq)%nat) by (rewrite Ew0; cbn; lia).
+  destruct (iter_stops _ w0 Hi Hl) as [w' Hw].
+  assert (Hw2 : iter (S (S (length (b0 :: r) + length sq))) w0 = Ok (Some w')).
+  { replace (S (S (length (b0 :: r) + length sq))) with (S (length r + length sq) + 2)%nat by (cbn [length]; lia). apply iter_more. exact Hw. }
+  exists w0, w'. split; [rewrite Ew0; reflexivity|]. split; [exact Hw2|]. split.
+  - rewrite <- Hm. exact (proj2 (iter_is_walk _ w0 Hi) w' Hw2).
+  - (* elements: every iteration keeps popped ++ rest *)
+    assert (K : forall f w w2, iter f w = Ok (Some w2) -> w_pb w2 ++ w_bq w2 = w_pb w ++ w_bq w /\ w_ps w2 ++ w_sq w2 = w_ps w ++ w_sq w).
+    { induction f as [|f IHf]; intros w w2 H; [discriminate|]. cbn [iter] in H. pose proof (one_iteration_keeps_elements w) as Ke.
+      destruct (loop_body_gen w) as [[[|] w1]|e]; [|inversion H; subst; exact Ke|discriminate].
+      destruct (IHf w1 w2 H) as [A B]. destruct Ke as [A1 B1]. split; congruence. }
+    destruct (K _ _ _ Hw2) as [A B]. rewrite A, B. split; [exact Eb|exact Es].
+Qed.
+Print Assumptions gen_loop_stops_with_the_models_result.
 
 (* non-vacuity: two bids (101 x 2, 100 x 1) against two asks (99 x 1, 100 x 5): the loop stops at its 4th iteration with three fills
    and the model's walk (any fuel from 4 on) gives the same price and fills *)
